@@ -134,6 +134,37 @@ func c13Streams(c *ev.Ctx) []tstream {
 			}
 		}
 	}
+	// compressed chunk, an uncompressed chunk longer than the reader's dictionary (by an amount
+	// that is no multiple of 4, so that position bits are off if a position is lost), then a
+	// compressed chunk that continues the state: a look-ahead buffer larger than the dictionary
+	// makes the library's writer produce it
+	for di, dict := range []int{4096, 8192} {
+		for vi, raw := range []int{dict + 2, dict + 905, dict + 1911, 2*dict + 3, 3*dict - 1} {
+			props := []lzma.Properties{{LC: 3, LP: 0, PB: 2}, {LC: 0, LP: 2, PB: 0}, {LC: 1, LP: 1, PB: 4}}[(vi+di)%3]
+			var b2 bytes.Buffer
+			w2, err := (lzma.Writer2Config{Properties: &props, DictCap: dict, BufSize: 4 * dict}).NewWriter2(&b2)
+			if err != nil {
+				continue
+			}
+			var content []byte
+			for pi, part := range [][2]any{{"text", 3000 + vi}, {"random", raw}, {"text", 3000}} {
+				d := gen.Data(r, part[0].(string), part[1].(int))
+				w2.Write(d)
+				if pi < 2 {
+					w2.Flush()
+				}
+				content = append(content, d...)
+			}
+			w2.Close()
+			streams = append(streams, tstream{ID: fmt.Sprintf("longraw2-%d-%d", dict, vi), Format: "lzma2", B: b2.Bytes(), Content: content, Dict: dict})
+			if vi%2 == 0 {
+				xzs := ref.BuildXZ(ref.CheckCRC32, []ref.BlockSpec{{LZMA2: b2.Bytes(), Content: content, DictCode: byte(map[int]int{4096: 0, 8192: 2}[dict])}})
+				if o, _, err := ref.DecodeXZ(xzs, 0); err == nil && bytes.Equal(o, content) {
+					streams = append(streams, tstream{ID: fmt.Sprintf("longrawxz-%d-%d", dict, vi), Format: "xz", B: xzs, Content: content})
+				}
+			}
+		}
+	}
 	return streams
 }
 
